@@ -1124,7 +1124,12 @@ class Ctx:
             r = self._check(timeout=self.prove_timeout_ms)
             if r == z3.sat:
                 self.stats["prove_sat"] += 1
-                raise Counterexample(label, self.solver.model(), detail)
+                mdl = self.solver.model()
+                if self.prefer:
+                    r2 = self._check(*self.prefer, timeout=min(self.prove_timeout_ms, 20000))
+                    if r2 == z3.sat:
+                        mdl = self.solver.model()
+                raise Counterexample(label, mdl, detail)
             if r == z3.unsat:
                 raise PathAbort("infeasible")
             self.stats["prove_unknown"] += 1
